@@ -61,6 +61,7 @@ def run(an: Analysis, rep):
     rep.run(c08.r082, an, sht)
     rep.run(ordering_rule, an, rep, "R14.5", ["iter", "all_code_data"])
     rep.run(decoded_placement_rule, an, rep)
+    rep.run(r14f, an, rep)
     tg = an.tg
     ci = an.prog.cls(ROOT)
     it, ret = an.interp("iter")
@@ -327,3 +328,58 @@ def decoded_placement_rule(an: Analysis, rep, rule="R14.6"):
     if n_fields < 40:
         raise AnalysisError(f"only {n_fields} (instance, field) pairs of the data model found in the decode closures: the heap walk lost its anchor")
     rep.add(rule, "decoded code objects sit at declared positions", True, "code_data/", f"{n_fields} (instance, field) pairs of the decode closures examined", nontrivial=False)
+
+
+def r14f(an: Analysis, rep, rule="R14.F"):
+    """__iter__ and all_code_data folded over a witness CodeData: one nested code object loaded by two instructions, one pinned at a position, one
+    that no instruction loads, two table entries holding EQUAL code objects (kept apart by their positions), plain constants / names in between, and
+    a nested code object with a nested code object of its own.  Expected from the property: iteration yields one object per table entry that
+    holds a code object; all_code_data yields the object itself first and then every code object at any depth, once per table entry."""
+    from sa.feval import BlockOutcome, Obj
+    from .c03 import package_evaluator
+    rep.rule(rule, "__iter__ / all_code_data folded over a witness with nested code objects in every position", 2)
+    fn = an.prog.function("code_data::CodeData.__iter__")
+    fn2 = an.prog.function("code_data::CodeData.all_code_data")
+    ev, _R = package_evaluator(an, fn.module, (3, 10))
+    L = ev.lib
+
+    def cd(name, *consts, extra=()):
+        ins = tuple(L["Instruction"](name="LOAD_CONST", arg=c, line_number=1) for c in consts) + (L["Instruction"](name="RETURN_VALUE", arg=L["NoArg"](0), line_number=1),)
+        return L["CodeData"](blocks=(ins[:1], ins[1:]) if len(ins) > 1 else (ins,), _additional_args=tuple(extra), first_line_number=1, type=None, freevars=(), stacksize=1,
+                             filename="f.py", name=name)
+    try:
+        D = cd("D")
+        A = cd("A", L["Constant"](1), L["Constant"](D))
+        B = cd("B")
+        C = cd("C", extra=(L["Constant"](cd("E"), 1),))
+        same1, same2 = cd("S"), cd("S")
+        outer = cd("outer", L["Constant"](A), L["Constant"]("text"), L["Constant"](A), L["Constant"](B, 3), L["Constant"](same1, 5), L["Constant"](same2, 6),
+                   extra=(L["Name"]("unused"), L["Constant"](C, 4), L["Constant"](None, 7)))
+        direct = ev.call_method(fn.node, outer)
+        every = ev.call_method(fn2.node, outer)
+        # a function with a docstring, as the decoder reports co_consts ("doc", 7, <code F>, 5) met in the order F, 7, 5: F pinned at 2, 7 pinned at 1, 5 at its first-use rank
+        fdoc = L["CodeData"](blocks=((L["Instruction"](name="LOAD_CONST", arg=L["Constant"](cd("F"), 2), line_number=1), L["Instruction"](name="LOAD_CONST", arg=L["Constant"](7, 1), line_number=1),
+                                      L["Instruction"](name="LOAD_CONST", arg=L["Constant"](5), line_number=1), L["Instruction"](name="RETURN_VALUE", arg=L["NoArg"](0), line_number=1)),),
+                             first_line_number=1, type=L["Function"](L["Args"](), "doc", None), freevars=(), stacksize=1, filename="f.py", name="with_doc")
+        direct_doc = ev.call_method(fn.node, fdoc)
+    except BlockOutcome as o:
+        rep.add(rule, f"{fn.qual}::witness with nested code objects", False, loc(fn.module, o.node), f"iteration stops at `{norm_src(o.node)[:60]}`")
+        return
+    except Exception as ex:  # noqa: BLE001 - a gap of the evaluator, never a verdict
+        raise AnalysisError(f"{fn.qual}: not evaluable on the witness data ({type(ex).__name__}: {ex})")
+    names = lambda xs: [x.get("name") if isinstance(x, Obj) else repr(x) for x in xs]  # noqa: E731
+    want_direct = sorted(["A", "B", "S", "S", "C"])
+    ok1 = sorted(names(direct)) == want_direct
+    rep.add(rule, f"{fn.qual}::one object per table entry that holds a code object", ok1, loc(fn.module, fn.node),
+            "yields A (loaded twice: once), B (pinned), the two equal code objects at positions 5 and 6 (both), C (unreferenced); no plain constant" if ok1 else
+            f"iteration over the witness yields {names(direct)}; the table entries holding code objects are {want_direct} (A is loaded by two instructions, the two S are equal code objects "
+            f"at different positions, C is loaded by no instruction)")
+    ok3 = names(direct_doc) == ["F"]
+    rep.add(rule, f"{fn.qual}::a function with a docstring and pinned entries", ok3, loc(fn.module, fn.node),
+            "yields the one nested code object (pinned at position 2, a plain constant without position after it)" if ok3 else
+            f"iteration over the function witness (co_consts ('doc', 7, <code F>, 5) met in the order F, 7, 5) yields {names(direct_doc)}, expected ['F']")
+    want_all = sorted(["A", "D", "B", "S", "S", "C", "E"])
+    ok2 = bool(every) and names(every)[0] == "outer" and sorted(names(every)[1:]) == want_all
+    rep.add(rule, f"{fn2.qual}::itself first, then every code object at any depth", ok2, loc(fn2.module, fn2.node),
+            "yields outer, then A, D (nested in A), B, both S, C and E (unreferenced in C)" if ok2 else
+            f"all_code_data() of the witness yields {names(every)}; expected 'outer' first and then {want_all} in some order")
